@@ -48,6 +48,12 @@ def main():
         sys.stderr.write(p.stderr)
         sys.exit(2)
 
+    if not (main_harness and os.path.realpath(repo) == "/repo"):
+        # An alternate harness copy is re-created from the main tree (mtimes preserved) on every `vf --repo`
+        # run while its target dir persists: without a fresh mtime cargo would keep a binary built from an
+        # earlier (differently derived) tsgen.rs. Found when two seeded changes were confirmed back to back.
+        os.utime(os.path.join(crate, "src", "tsgen.rs"), None)
+
     env = dict(os.environ)
     env["CARGO_NET_OFFLINE"] = "true"
     env["CARGO_TARGET_DIR"] = target
